@@ -222,6 +222,10 @@ def _cmp_state(node: ControllerNode, app_id: int, st: AppState, where: str, samp
     if sorted(node.shm_arrays(app_id)) != sorted(st.shm_arrays):
         raise Violation("lockstep", f"lockstep|shared-array-set|{where}",
                         {"real": sorted(node.shm_arrays(app_id)), "model": sorted(st.shm_arrays), **sample})
+    mapped = {p for um in node.ex._qubit_unit_modules.values() for p in um if p is not None}
+    if set(node.ex._used_physical_qubit_addresses) != mapped:
+        raise Violation("lockstep", f"lockstep|physical-pool-bookkeeping|{where}",
+                        {"used": sorted(node.ex._used_physical_qubit_addresses), "mapped": sorted(mapped), **sample})
     if set(node.allocated(app_id)) != st.qubits:
         raise Violation("lockstep", f"lockstep|allocated-qubits|{where}",
                         {"real": node.allocated(app_id), "model": sorted(st.qubits), **sample})
